@@ -3553,8 +3553,8 @@ def _const_items(it):
     r = _const_range(it)
     if r is not None:
         return [ast.Constant(value=k) for k in r]
-    if isinstance(it, (ast.Tuple, ast.List)) and 1 <= len(it.elts) <= 8 and all(isinstance(e, ast.Constant) for e in it.elts):
-        return [copy.deepcopy(e) for e in it.elts]
+    if isinstance(it, (ast.Tuple, ast.List)) and 1 <= len(it.elts) <= 8 and all(isinstance(e, (ast.Constant, ast.Name)) for e in it.elts):
+        return [copy.deepcopy(e) for e in it.elts]          # (plain names: the unroller checks that the body does not re-bind them)
     if isinstance(it, (ast.Tuple, ast.List)) and 1 <= len(it.elts) <= 8 and all(
             isinstance(e, (ast.Tuple, ast.List)) and all(isinstance(x, ast.Constant) or (isinstance(x, ast.Attribute) and _simple_arg(x)) for x in e.elts) for e in it.elts):
         return [copy.deepcopy(e) for e in it.elts]          # rows of a constant table
@@ -3635,6 +3635,9 @@ def unroll_loops(tree, ref):
                         if any(isinstance(n, (ast.Break, ast.Continue, ast.Return, ast.FunctionDef, ast.Lambda)) for n in inner):
                             continue
                         if any(isinstance(n, ast.Name) and n.id == v and isinstance(n.ctx, (ast.Store, ast.Del)) for n in inner):
+                            continue
+                        item_names = {r.id for r in vals if isinstance(r, ast.Name)}
+                        if item_names and any(isinstance(n, ast.Name) and n.id in item_names and isinstance(n.ctx, (ast.Store, ast.Del)) for n in inner):
                             continue
                         after = [n for s_ in block[i + 1:] for n in ast.walk(s_) if isinstance(n, ast.Name) and n.id == v and isinstance(n.ctx, ast.Load) and not _rebound_around(fn, n)]
                         if after:
@@ -3756,6 +3759,67 @@ def collapse_append_loops(tree, ref):
                 if changed:
                     break
             if not changed:
+                break
+    if total:
+        ast.fix_missing_locations(tree)
+    return total
+
+
+def scalarise_built_lists(tree, ref, ref_locals):
+    """`X = []; X.append(a); X.append(b)` (straight-line, a local the reference does not have) that is afterwards only read as `X[0]`, `X[1]`
+    is a group of locals X_0 = a; X_1 = b (what an unrolled collecting loop leaves behind)."""
+    total = 0
+    for q, fn in functions(tree):
+        want = (ref_locals or {}).get(q)
+        if want is None:
+            continue
+        params = {a.arg for a in fn.args.posonlyargs + fn.args.args + fn.args.kwonlyargs}
+        for block in _blocks(fn):
+            for i, st in enumerate(block):
+                if not (isinstance(st, ast.Assign) and len(st.targets) == 1 and isinstance(st.targets[0], ast.Name) and isinstance(st.value, ast.List) and
+                        st.targets[0].id not in want and st.targets[0].id not in params):
+                    continue
+                X = st.targets[0].id
+                elems = list(st.value.elts)
+                if any(isinstance(e, ast.Starred) for e in elems):
+                    continue
+                j = i + 1
+                apps = []
+                while j < len(block) and isinstance(block[j], ast.Expr) and isinstance(block[j].value, ast.Call) and isinstance(block[j].value.func, ast.Attribute) and \
+                        block[j].value.func.attr == 'append' and isinstance(block[j].value.func.value, ast.Name) and block[j].value.func.value.id == X and len(block[j].value.args) == 1 and \
+                        not any(isinstance(n, ast.Name) and n.id == X for n in ast.walk(block[j].value.args[0])):
+                    apps.append(block[j])
+                    j += 1
+                if not apps:
+                    continue
+                n = len(elems) + len(apps)
+                mentions = [m for m in ast.walk(fn) if isinstance(m, ast.Name) and m.id == X]
+                subs = [m for m in ast.walk(fn) if isinstance(m, ast.Subscript) and isinstance(m.value, ast.Name) and m.value.id == X and isinstance(m.ctx, ast.Load) and
+                        isinstance(m.slice, ast.Constant) and isinstance(m.slice.value, int) and not isinstance(m.slice.value, bool) and 0 <= m.slice.value < n]
+                if len(mentions) != 1 + len(apps) + len(subs) or not subs:
+                    continue
+                later = {id(m) for x in block[j:] for m in ast.walk(x)}
+                if not all(id(m) in later for m in subs):
+                    continue
+                names = ['%s_%d' % (X, k) for k in range(n)]
+                if any(isinstance(m, ast.Name) and m.id in names for m in ast.walk(fn)):
+                    continue
+                new = []
+                for k, e in enumerate(elems):
+                    new.append(ast.copy_location(ast.Assign(targets=[ast.Name(id=names[k], ctx=ast.Store())], value=e, lineno=st.lineno), st))
+                for k, a in enumerate(apps):
+                    new.append(ast.copy_location(ast.Assign(targets=[ast.Name(id=names[len(elems) + k], ctx=ast.Store())], value=a.value.args[0], lineno=a.lineno), a))
+
+                class T(ast.NodeTransformer):
+                    def visit_Subscript(self, m):
+                        if any(m is s_ for s_ in subs):
+                            return ast.copy_location(ast.Name(id=names[m.slice.value], ctx=ast.Load()), m)
+                        self.generic_visit(m)
+                        return m
+                block[i:j] = new
+                for k in range(len(fn.body)):
+                    fn.body[k] = T().visit(fn.body[k])
+                total += 1
                 break
     if total:
         ast.fix_missing_locations(tree)
@@ -3919,7 +3983,7 @@ def normalise(tree, path, ref_locals, model=None):
                      ('observability', lambda: drop_observability(tree, ref)), ('params', lambda: default_new_params(tree, ref) + default_new_params(tree, ref)), ('initliterals', lambda: inline_init_literals(tree, ref)),
                      ('structs', lambda: inline_struct_objects(tree, ref)),
                      ('anytests', lambda: lower_any_tests(tree, ref)), ('loops', lambda: reshape_loops(tree, ref, ref_locals)), ('helpers', lambda: inline_helpers(tree, ref)), ('namedtuples2', lambda: dissolve_namedtuples(tree, ref, path, model)), ('records', lambda: scalarise_records(tree, ref)), ('tuplevars', lambda: scalarise_tuple_locals(tree, ref, ref_locals)), ('ifexps0', lambda: expand_ifexps(tree, ref)), ('flagtails', lambda: sink_flag_tails(tree, ref, ref_locals)), ('decided', lambda: fold_decided_branches(tree, ref)), ('trivia', lambda: drop_trivia(tree, ref)), ('ifexps', lambda: expand_ifexps(tree, ref)), ('boolreturns', lambda: expand_bool_returns(tree, ref)),
-                     ('unrolled', lambda: unroll_loops(tree, ref)),
+                     ('unrolled', lambda: unroll_loops(tree, ref)), ('builtlists', lambda: scalarise_built_lists(tree, ref, ref_locals)),
                      ('comprehensions', lambda: expand_comprehensions(tree, ref) + collapse_append_loops(tree, ref)), ('ifexps2', lambda: expand_ifexps(tree, ref)),
                      ('ranges', lambda: split_live_ranges(tree, ref_locals or {})), ('temps', lambda: inline_temps(tree, path, ref_locals or {})),
                      ('decided2', lambda: _settle(tree, ref, path, ref_locals or {}))):
